@@ -297,6 +297,34 @@ def o_c19(meta, ans, ctx):
     return None
 
 
+def o_c16(meta, ans, ctx):
+    k = meta.get('kind')
+    if k == 'ser3':
+        toks = dict(t.split(':', 1) for t in ans.split(' ')[1:] if ':' in t)
+        if 'V' not in toks: return 'shape: ' + ans[:60]
+        v = toks['V']
+        if not re.fullmatch(r'[0-9a-f]+', v): return 'vec: serializing the vector failed (%s)' % v[:40]
+        if toks.get('S') != v: return 'slice: the slice reference is not serialized like the vector'
+        if toks.get('I') not in ('-', v): return 'iter: the iterator wrapper is not serialized like the vector'
+        wv = toks.get('WV')
+        if toks.get('WS') != wv: return 'nested-slice: a structure holding the slice differs from the one holding the vector'
+        if toks.get('WI') not in ('-', wv): return 'nested-iter: a structure holding the iterator differs from the one holding the vector'
+        if 'intact=true' not in ans: return 'intact: the source vector changed'
+        return None
+    if k == 'iter':
+        if ans == 'iter -': return None
+        p = ans.split(' ')
+        n, a = meta['n'], meta['a']
+        if n == a:
+            if p[1] != 'ok': return 'honest: an honest iterator is refused (%s)' % p[1]
+        else:
+            if p[1] == 'ok': return 'lying-accepted: announced %d, yielded %d, serialization succeeded' % (a, n)
+            if p[1] != 'mismatch': return 'lying-error: expected a length-mismatch error, got %s' % p[1]
+            if p[2] != str(n) or p[3] != str(a): return 'lying-counts: the error reports actual=%s expected=%s' % (p[2], p[3])
+        return None
+    return None
+
+
 SPECS = {
     'C01': CaseSpec(o_c01, 'serialize each generated value, deserialize_full the bytes; generated types x boundary-biased values.'),
     'C02': CaseSpec(o_c02, 'serialize each generated value, deserialize_eps from a 128-aligned (and 64 mod 128) buffer and deserialize_full the same bytes.'),
@@ -304,6 +332,7 @@ SPECS = {
     'C10': CaseSpec(o_c10, 'every single-bit flip of the 29 fixed header bytes (all 232 for a quarter of the types in the quick tier, a sample of 48 for the others), the reversed cookie, minor/major/usize boundary values; both modes.'),
     'C11': CaseSpec(o_c11, 'every cut point k in [0,len) of the streams of generated values (streams up to 400 bytes in the quick tier); both modes.'),
     'C12': CaseSpec(o_c12, 'every base residue 0..127 (all for half of the types with aligned blocks in the quick tier, 16 residues for the rest) x generated values; block list taken from the real schema.'),
+    'C16': CaseSpec(o_c16, 'for 13+ element types (zero-copy and deep, built-in and derived): the vector, the slice reference, the SerIter wrapper and a generic structure holding each, on empty and generated sequences; lying iterators for all (announced, actual) pairs <= 6 and larger ones.'),
     'C19': CaseSpec(o_c19, 'every history of length <= 3 (quick; <= 4 thorough) over an alphabet of 12 (14) operations on AlignedCursor<A16>, plus long random histories for A16/A32/A64; the same history on std::io::Cursor<Vec<u8>>; both models tied.'),
     'C15': CaseSpec(o_c15, 'every tag position of every generated value (found through the real schema): byte tags set to 11 boundary values or all 256, enum tag words set to boundary values; both modes.'),
 }
